@@ -36,10 +36,20 @@ int stubd_readInt(struct c3d *self, unsigned int n, int off, const int *pos)
   __CPROVER_assert(n == 1 && *pos == VF_IOS_beg && off == vf_expected_seek, "data section located from the parameter block count");
   return 0;
 }
+size_t vf_favail;  /* floats the (possibly truncated) file really holds */
+size_t vf_fpast;   /* reads issued after the end of the file was reached */
+float nondet_float(void);
 float stubd_readFloat(struct c3d *self, int off, const int *pos)
 {
   __CPROVER_assert(*pos == VF_IOS_cur && off == 0, "floats are read sequentially");
   __CPROVER_assert(vf_fnext < sizeof(vf_fseq) / sizeof(vf_fseq[0]), "no more floats are read than the header announces");
+  if (vf_fnext >= vf_favail) {           /* contract of readFloat at the end of the file: eofbit | failbit, arbitrary value */
+    self->vf_base.eof = 1;
+    self->vf_base.fail = 1;
+    ++vf_fpast;
+    ++vf_fnext;
+    return nondet_float();
+  }
   return vf_fseq[vf_fnext++];
 }
 const struct Group *stubd_group(const struct Parameters *self, const vf_string *name)
@@ -149,11 +159,18 @@ void h_B_Data_read(void)
   vf_dlab_analog->_param_data_string.data = (vf_string *)vf_alloc(DN * sizeof(vf_string));
   vf_point_labels_base = vf_dlab_point->_param_data_string.data;
   vf_analog_labels_base = vf_dlab_analog->_param_data_string.data;
-  vf_fnext = 0; vf_cur_frame = 0; vf_cur_analog_frame = 0; vf_exc = 0;
+  vf_fnext = 0; vf_cur_frame = 0; vf_cur_analog_frame = 0; vf_exc = 0; vf_fpast = 0;
+  file->vf_base.eof = 0; file->vf_base.fail = 0; file->vf_base.is_open = 1;
   struct Data *self = (struct Data *)vf_alloc(sizeof(*self));
-  Data__ctor__c3d(self, file);
   size_t per_frame = 4 * nP + nS * nC;
-  if (h->_scaleFactor < 0) {
+  _Bool complete = vf_favail >= nF * per_frame;    /* the file holds every float the header announces */
+  Data__ctor__c3d(self, file);
+  if (h->_scaleFactor < 0 && !complete) {
+    /*@ C16 : B_Data_read.truncated-data-section-is-refused-early */
+    __CPROVER_assert(vf_exc == VF_EXC_ios_failure && vf_fpast <= 4,
+                     "a data section shorter than announced is refused, after at most one point's worth of reads past the end of the file");
+  }
+  else if (h->_scaleFactor < 0) {
     /*@ C02 C16 : B_Data_read.float-format-loads */ __CPROVER_assert(vf_exc == 0, "a float-format data section loads");
     /*@ C02 C03 : B_Data_read.frame-count-and-float-count */
     __CPROVER_assert(self->_frames.size == nF && vf_fnext == nF * per_frame && vf_cur_frame == nF, "frames x (4 x points + channels x sub-frames) floats");
